@@ -1,10 +1,14 @@
 /-
   Driver for C03. Line = "(live ((crit host)…) victim kind instant)<TAB>implObs", see
-  harness/props/c03. The model's observation is computed under the wall-clock schedule
-  (`Failure.settle`) twice: with the watcher at its receive when the failure's
-  notifications are sent, and with the watcher away. Monitor style: the answer is the
-  variant the implementation's observation equals (the first by default), so a dropped
-  notification shows up as spec = 0 / hyp = notify_dropped, not as a disagreement.
+  harness/props/c03. The model is the code AS IT IS (`Failure.codeCfg`: the watcher's channel
+  has a buffer of one, the root's state is re-read after every receive); its observation is
+  computed under the wall-clock schedule (`Failure.settle`; the watcher goroutine consumes
+  what is put into its channel at once: `Failure.drain` after every constructed step).
+  Monitor style only where the real schedule is not determined (racelate, burst): the answer
+  is the variant the implementation's observation equals (the first by default).
+  An ERROR of the root that never reaches the environment (the former finding
+  notify_dropped, fixed) is no variant of the model any more: it is a disagreement with
+  spec = 0, i.e. a plain VIOLATION.
 -/
 import ControlModel.Model.Failure
 
@@ -85,20 +89,26 @@ def raceEv (l : St) : Ev × TState :=
 
 def path (i : Nat) : List Nat := [0, i]
 
-/-- The queued state update of task `i` runs now. -/
+/-- The code as it is. -/
+def cfg : Cfg := codeCfg
+
+/-- The queued state update of task `i` runs now (and the watcher looks at what it was sent). -/
 def applyTask (s : Sys) (i : Nat) : Sys :=
   match s.updq.findIdx? (fun x => x.1 == path i) with
-  | some k => istep s (.apply k true)
+  | some k => drain cfg (istep cfg s (.apply k true))
   | none => s
 
-/-- The model's final system for the scenario; `ready` = where the watcher is when the
-    failure's own notifications are sent; `late` = queued state updates run after everything
-    else that is enabled (racelate: the watcher's GO_ERROR is already waiting for the mutex). -/
-def finalSys (sc : Scen) (ready : Bool) (finishFirst : Bool := false) (modes : List Nat := []) (late : Bool := false) : Option Sys :=
+/-- The model's final system for the scenario; `late` = queued state updates run after everything
+    else that is enabled (racelate: the watcher's GO_ERROR is already waiting for the mutex).
+    (The `ready` bits of the model's inputs play no role on a buffered channel.) -/
+def finalSys (sc : Scen) (finishFirst : Bool := false) (modes : List Nat := []) (late : Bool := false) : Option Sys :=
   let base := mkSys sc
-  let vs := (victims sc).map (fun i => (path i, ready))
+  let vs := (victims sc).map (fun i => (path i, true))
   let (ev, dst) := raceEv sc.live
-  let fin (s : Sys) : Sys := if late then settleLate 64 s else settle 64 s
+  let fin (s : Sys) : Sys := if late then settleLate cfg 96 s else settle cfg 96 s
+  let fail (k : Kind) (s : Sys) (vs : List (List Nat × Bool)) : Sys := drain cfg (Failure.fail cfg k s vs)
+  let setLeaves (s : Sys) (ps : List (List Nat)) (v : TState) (r : Bool) : Sys :=
+    ps.foldl (fun acc p => drain cfg (setLeaf cfg acc p v r)) s
   match sc.instant with
   | "idle" => some (fin (fail sc.kind base vs))
   | "race" | "racelate" => do
@@ -123,9 +133,9 @@ def finalSys (sc : Scen) (ready : Bool) (finishFirst : Bool := false) (modes : L
     let lateV := vm.filter (fun x => x.2 ≠ 0)
     let early := (indices sc).filter (fun i => !(lateV.any (fun x => x.1 == i)))
     let s2 := { base with inflight := some { ev := ev, api := true, pending := (indices sc).map (fun i => (path i, dst)), ok := true } }
-    let s3 := irun s2 ((indices sc).map (fun _ => Label.arrive))
+    let s3 := irun cfg s2 ((indices sc).map (fun _ => Label.arrive))
     let s3 := early.foldl applyTask s3
-    let s3 := if finishFirst then istep s3 .finish else s3
+    let s3 := if finishFirst then istep cfg s3 .finish else s3
     let s4 := fail sc.kind s3 vs
     let s5 := lateV.foldl (fun (s : Sys) (x : Nat × Nat) =>
       let own := ownState s (path x.1) (roleStateAt s.f (path x.1))
@@ -217,12 +227,11 @@ def specOn (sc : Scen) (impl : SExp) : Bool :=
   else
     env == (undisturbed sc).name
 
-def hypOf (sc : Scen) (impl : SExp) (isBusy : Bool) : String :=
+def hypOf (sc : Scen) (impl : SExp) : String :=
   let env := atom1 impl "env"
   if anyCrit sc then
     if env == "ERROR" then "-"
     else if sc.kind = .FINISHED then "finished_not_error"
-    else if isBusy ∧ atom1 impl "root" == "ERROR" then "notify_dropped"
     else if sc.kind = .INTERNAL then "internal_error_ignored_unless_running"
     else "-"
   else
@@ -233,10 +242,9 @@ def processLine (line : String) : String :=
   | [inp, impl] =>
     match (SExp.parse inp).bind parseScen with
     | some sc =>
-      match finalSys sc true, finalSys sc false with
-      | some sr, some sb =>
+      match finalSys sc with
+      | some sr =>
         let oR := toString (obsOf sc sr)
-        let oB := toString (obsOf sc sb)
         -- burst: whether the transition ends before or after the failure is handled, and how each victim's own
         -- reply interleaves with its failure, is not determined: accept any of these schedules (monitor style)
         let nv := (victims sc).length
@@ -244,24 +252,22 @@ def processLine (line : String) : String :=
           if sc.instant == "burst" then
             (List.range nv).foldl (fun acc _ => acc.flatMap (fun l => [l ++ [0], l ++ [1], l ++ [2], l ++ [3], l ++ [4]])) [[]]
           else [[]]
-        let variants (ready : Bool) : List String :=
+        let variants : List String :=
           if sc.instant == "burst" then
-            modeLists.flatMap fun ms => [false, true].filterMap fun ff => (finalSys sc ready ff ms).map (fun x => toString (obsOf sc x))
+            modeLists.flatMap fun ms => [false, true].filterMap fun ff => (finalSys sc ff ms).map (fun x => toString (obsOf sc x))
           else if sc.instant == "racelate" then
             -- the watcher's GO_ERROR already waits for the mutex: it can run before the held reply's state update
-            ((finalSys sc ready false [] true).map (fun x => toString (obsOf sc x))).toList
+            ((finalSys sc false [] true).map (fun x => toString (obsOf sc x))).toList
           else []
-        let vR := oR :: variants true
-        let vB := oB :: variants false
-        let isBusy := !(vR.contains impl) && vB.contains impl
-        let model := if vR.contains impl || vB.contains impl then impl else oR
+        let vR := oR :: variants
+        let model := if vR.contains impl then impl else oR
         match SExp.parse impl with
         | some io =>
           let spec := specOn sc io
-          let hyp := if spec then "-" else hypOf sc io isBusy
+          let hyp := if spec then "-" else hypOf sc io
           s!"{model}\t{if spec then 1 else 0}\t{hyp}"
         | none => s!"{model}\t0\t-"
-      | _, _ => "BADSCENARIO\t0\t-"
+      | none => "BADSCENARIO\t0\t-"
     | none => "BADINPUT\t0\t-"
   | _ => "BADLINE\t0\t-"
 
